@@ -1,6 +1,435 @@
+//! C17 — progress only moves forward to 100 % and cancellation is honoured.
+//!
+//! Case line
+//!   run API FORMAT W H COLOR DITH QUALITY MIPS PAR THREADS ORDER REPORTER CANCEL SEED
+//!     API       E = `Encoder::write_surface_with_progress`, F = free function `dds::encode`
+//!     MIPS      0/1: declare a full mip chain and let the encoder generate it (E only)
+//!     PAR       0/1: `EncodeOptions.parallel`
+//!     THREADS   size of the rayon pool the call runs in
+//!     ORDER     nat/rev/rnd/free: fragment completion order imposed through the `dds_verif` hook
+//!     REPORTER  mt = `Progress::new` (Send closure), st = `Progress::new_single_threaded`
+//!     CANCEL    -  : never
+//!               pre: token cancelled before the call; afterwards reset and retry
+//!               kN : the reporter closure cancels the token when it receives report number N (0-based)
+//!               sweep: first an uncancelled run, then one run per report index k (all k, at most 96
+//!                      evenly spread) cancelling at k
+//!
+//! Result line (canonical, compared with the Lean model with 1e-6 slack on progress values):
+//!   -     : `<res> n=<reports> seq=<f32 bits,...>`            when the sequence is schedule independent
+//!           `<res> n=<reports> dif=<sorted successive differences as f32 bits>` otherwise
+//!   pre   : `<res> n=<reports> written=<bytes> retry=<res> n2=<reports>`
+//!   kN    : `<res> n=<reports>` (sequential) / `<res>` (parallel: later reports are schedule dependent)
+//!   sweep : `sweep n=<reports> cancelled=<runs that returned Cancelled> ok=<runs that returned Ok>`
+//!
+//! Oracle (on the recorded values of the implementation alone): every value within [0,1]; never
+//! decreasing by more than 1e-6; the last value is exactly 1.0 iff the call returned Ok (API E; for
+//! API F the value is recorded in the result line, see notes/C17.md); cancelling at a report below
+//! 100 % or before the call gives Err(Cancelled); a pre-cancelled call reports nothing, writes nothing,
+//! and succeeds when retried after `reset`.
+use crate::c14::*;
+use crate::common::*;
+use dds::*;
+use std::sync::{Arc, Mutex};
+
+pub fn err_name(e: &EncodingError) -> String {
+    let s = format!("{e:?}");
+    s.split(|c: char| !c.is_alphanumeric()).next().unwrap_or("?").to_string()
+}
+
+#[derive(Clone, Copy, PartialEq, Eq, Debug)]
+pub enum Cancel {
+    Never,
+    Pre,
+    At(usize),
+    Sweep,
+}
+
+pub struct Case {
+    pub api_encoder: bool,
+    pub name: String,
+    pub format: Format,
+    pub w: u32,
+    pub h: u32,
+    pub color: ColorFormat,
+    pub opts: EncodeOptions,
+    pub mips: bool,
+    pub threads: usize,
+    pub order: Order,
+    pub mt: bool,
+    pub cancel: Cancel,
+    pub seed: u64,
+}
+
+pub fn parse(line: &str) -> Option<Option<Case>> {
+    let t = toks(line);
+    if t.len() != 15 || t[0] != "run" {
+        return None;
+    }
+    let api_encoder = match t[1] {
+        "E" => true,
+        "F" => false,
+        _ => return None,
+    };
+    let format = match parse_format(t[2]) {
+        Some(f) => f,
+        None => return Some(None),
+    };
+    let (w, h) = (p_u32(t[3])?, p_u32(t[4])?);
+    let color = parse_color(t[5])?;
+    let d = parse_dith(t[6])?;
+    let q = parse_quality(t[7])?;
+    let mips = match t[8] {
+        "0" => false,
+        "1" => true,
+        _ => return None,
+    };
+    let par = match t[9] {
+        "0" => false,
+        "1" => true,
+        _ => return None,
+    };
+    let threads = p_usize(t[10])?;
+    let order = parse_order(t[11])?;
+    let mt = match t[12] {
+        "mt" => true,
+        "st" => false,
+        _ => return None,
+    };
+    let cancel = match t[13] {
+        "-" => Cancel::Never,
+        "pre" => Cancel::Pre,
+        "sweep" => Cancel::Sweep,
+        s if s.starts_with('k') => Cancel::At(p_usize(&s[1..])?),
+        _ => return None,
+    };
+    let seed = p_u64(t[14])?;
+    if threads == 0 || threads > 64 || (mips && !api_encoder) || w as u64 * h as u64 > 1 << 24 {
+        return None;
+    }
+    Some(Some(Case {
+        api_encoder,
+        name: t[2].to_string(),
+        format,
+        w,
+        h,
+        color,
+        opts: options(d, q, ErrorMetric::Uniform, par),
+        mips,
+        threads,
+        order,
+        mt,
+        cancel,
+        seed,
+    }))
+}
+
+pub struct Outcome {
+    pub result: Result<(), EncodingError>,
+    pub reports: Vec<f32>,
+    /// bytes written by the call itself (the DDS header written by `Encoder::new` is not counted)
+    pub written: usize,
+    pub forced: usize,
+    pub timeouts: usize,
+}
+
+struct Shared {
+    reports: Mutex<Vec<f32>>,
+}
+
+/// sizes of the surfaces one call encodes (level 0 and, with generated mipmaps, all further levels)
+pub fn level_sizes(c: &Case) -> Vec<Size> {
+    let mut v = vec![Size::new(c.w, c.h)];
+    if c.mips {
+        let mut l = 1u8;
+        loop {
+            let prev = *v.last().unwrap();
+            if prev.width <= 1 && prev.height <= 1 {
+                break;
+            }
+            v.push(Size::new(c.w, c.h).get_mipmap(l));
+            l += 1;
+        }
+    }
+    v
+}
+
+/// fragment heights of every level (through the public `SplitView`), used only to size the
+/// scheduler and to decide which canonical form the result line takes
+pub fn level_fragments(c: &Case) -> Vec<Vec<u32>> {
+    let mut out = vec![];
+    for s in level_sizes(c) {
+        let data = vec![0u8; s.width as usize * s.height as usize];
+        let img = match ImageView::new(&data, s, ColorFormat::GRAYSCALE_U8) {
+            Some(i) => i,
+            None => {
+                out.push(vec![s.height]);
+                continue;
+            }
+        };
+        let sv = SplitView::new(img, c.format, &c.opts);
+        out.push((0..sv.len()).map(|i| sv.get(i).map(|f| f.height()).unwrap_or(0)).collect());
+    }
+    out
+}
+
+struct CountW(Arc<std::sync::atomic::AtomicUsize>);
+impl std::io::Write for CountW {
+    fn write(&mut self, buf: &[u8]) -> std::io::Result<usize> {
+        self.0.fetch_add(buf.len(), std::sync::atomic::Ordering::SeqCst);
+        Ok(buf.len())
+    }
+    fn flush(&mut self) -> std::io::Result<()> {
+        Ok(())
+    }
+}
+
+/// One call of the API under test with a recording reporter and a cancellation token; with `retry`
+/// the token is reset afterwards and the same call is made again (second outcome).
+pub fn execute(c: &Case, data: &[u8], pre_cancel: bool, cancel_at: Option<usize>, retry: bool) -> Vec<Outcome> {
+    use std::sync::atomic::Ordering::SeqCst;
+    let image = ImageView::new(data, Size::new(c.w, c.h), c.color).expect("image");
+    let token = CancellationToken::new();
+    let shared = Arc::new(Shared { reports: Mutex::new(vec![]) });
+    let lens: Vec<usize> = if c.opts.parallel {
+        level_fragments(c).iter().map(|f| f.len()).filter(|&n| n > 1).collect()
+    } else {
+        vec![]
+    };
+    let strict = c.mt && cancel_at.is_none() && !pre_cancel;
+    let sched = Sched::new(&lens, c.threads, c.order, c.seed, strict);
+
+    let tok2 = token.clone();
+    let sh2 = shared.clone();
+    let sc2 = sched.clone();
+    let mut record = move |p: f32| {
+        let idx = {
+            let mut g = sh2.reports.lock().unwrap_or_else(|e| e.into_inner());
+            g.push(p);
+            g.len() - 1
+        };
+        if Some(idx) == cancel_at {
+            tok2.cancel();
+            sc2.open();
+        }
+        sc2.note_submit();
+    };
+    let take = |shared: &Arc<Shared>| std::mem::take(&mut *shared.reports.lock().unwrap_or_else(|e| e.into_inner()));
+
+    let count = Arc::new(std::sync::atomic::AtomicUsize::new(0));
+    let mut writer = CountW(count.clone());
+    if pre_cancel {
+        token.cancel();
+    }
+    let mut out = vec![];
+    if c.api_encoder {
+        let mut encoder = match Encoder::new_image(&mut writer, Size::new(c.w, c.h), c.format, c.mips) {
+            Ok(e) => e,
+            Err(e) => return vec![Outcome { result: Err(e), reports: vec![], written: 0, forced: 0, timeouts: 0 }],
+        };
+        encoder.options = c.opts.clone();
+        encoder.mipmaps.generate = c.mips;
+        for attempt in 0..(1 + retry as usize) {
+            if attempt == 1 {
+                token.reset();
+            }
+            let before = count.load(SeqCst);
+            let result = with_hook(&sched, || {
+                pool(c.threads).install(|| {
+                    let mut progress = if c.mt {
+                        Progress::new(&mut record)
+                    } else {
+                        Progress::new_single_threaded(&mut record)
+                    }
+                    .with_cancellation(&token);
+                    encoder.write_surface_with_progress(image, &mut progress)
+                })
+            });
+            let (forced, timeouts) = sched.stats();
+            out.push(Outcome { result, reports: take(&shared), written: count.load(SeqCst) - before, forced, timeouts });
+        }
+    } else {
+        for attempt in 0..(1 + retry as usize) {
+            if attempt == 1 {
+                token.reset();
+            }
+            let before = count.load(SeqCst);
+            let result = with_hook(&sched, || {
+                pool(c.threads).install(|| {
+                    let mut progress = if c.mt {
+                        Progress::new(&mut record)
+                    } else {
+                        Progress::new_single_threaded(&mut record)
+                    }
+                    .with_cancellation(&token);
+                    encode(&mut writer, image, c.format, Some(&mut progress), &c.opts)
+                })
+            });
+            let (forced, timeouts) = sched.stats();
+            out.push(Outcome { result, reports: take(&shared), written: count.load(SeqCst) - before, forced, timeouts });
+        }
+    }
+    out
+}
+
+fn res_name(r: &Result<(), EncodingError>) -> String {
+    match r {
+        Ok(()) => "ok".into(),
+        Err(EncodingError::Cancelled) => "cancelled".into(),
+        Err(e) => format!("err:{}", err_name(e)),
+    }
+}
+
+fn bits(v: &[f32]) -> String {
+    v.iter().map(|x| format!("{:08x}", x.to_bits())).collect::<Vec<_>>().join(",")
+}
+
+const SLACK: f32 = 1e-6;
+
+/// the property's clauses that concern one recorded run
+fn check_sequence(tag: &str, c: &Case, o: &Outcome, orc: &mut Vec<String>) {
+    let r = &o.reports;
+    for (i, &p) in r.iter().enumerate() {
+        if !(p >= 0.0 && p <= 1.0) {
+            orc.push(format!("{tag}: report {i} = {p:e} is outside [0,1]"));
+            break;
+        }
+    }
+    for i in 1..r.len() {
+        if r[i] < r[i - 1] - SLACK {
+            orc.push(format!(
+                "{tag}: progress decreased at report {i}: {:e} after {:e} (bits {:08x} after {:08x})",
+                r[i],
+                r[i - 1],
+                r[i].to_bits(),
+                r[i - 1].to_bits()
+            ));
+            break;
+        }
+    }
+    let ends_100 = r.last().map(|&p| p == 1.0).unwrap_or(false);
+    if c.api_encoder {
+        if o.result.is_ok() && !ends_100 {
+            orc.push(format!("{tag}: call succeeded but the last report is {:?}, not 1.0", r.last()));
+        }
+        if o.result.is_err() && ends_100 {
+            orc.push(format!("{tag}: call failed ({}) after reporting 1.0", res_name(&o.result)));
+        }
+    } else if o.result.is_err() && ends_100 {
+        orc.push(format!("{tag}: call failed ({}) after reporting 1.0", res_name(&o.result)));
+    }
+    if o.timeouts > 0 {
+        // not a property failure; visible in the evidence through the result line only if it changes a result
+    }
+}
+
 pub fn gen(_seed: u64, _thorough: bool) -> Vec<String> {
     vec![]
 }
-pub fn run(_line: &str) -> Option<(String, Vec<String>)> {
-    None
+
+pub fn run(line: &str) -> Option<(String, Vec<String>)> {
+    let c = match parse(line)? {
+        Some(c) => c,
+        None => return Some(("bad-case".into(), vec![])),
+    };
+    let data = make_image(c.w, c.h, c.color, c.seed);
+    ImageView::new(&data, Size::new(c.w, c.h), c.color)?;
+    let mut orc = vec![];
+    let frs = level_fragments(&c);
+    // is the report sequence independent of the completion order?
+    let order_free = !c.opts.parallel
+        || !c.mt
+        || frs.iter().all(|f| f.len() <= 1 || f.iter().all(|&x| x == f[0]));
+    match c.cancel {
+        Cancel::Never => {
+            let o = execute(&c, &data, false, None, false).remove(0);
+            check_sequence("run", &c, &o, &mut orc);
+            let n = o.reports.len();
+            let res = if order_free {
+                format!("{} n={n} seq={}", res_name(&o.result), bits(&o.reports))
+            } else {
+                let mut d: Vec<f32> = o.reports.windows(2).map(|w| w[1] - w[0]).collect();
+                d.sort_by(|a, b| a.partial_cmp(b).unwrap_or(std::cmp::Ordering::Equal));
+                let first = o.reports.first().copied().unwrap_or(-1.0);
+                format!("{} n={n} first={:08x} dif={}", res_name(&o.result), first.to_bits(), bits(&d))
+            };
+            Some((res, orc))
+        }
+        Cancel::Pre => {
+            let mut os = execute(&c, &data, true, None, true);
+            if os.len() != 2 {
+                let o = os.remove(0);
+                return Some((res_name(&o.result), orc));
+            }
+            let o2 = os.remove(1);
+            let o1 = os.remove(0);
+            check_sequence("pre-cancelled", &c, &o1, &mut orc);
+            check_sequence("retry", &c, &o2, &mut orc);
+            if !matches!(o1.result, Err(EncodingError::Cancelled)) {
+                orc.push(format!("token cancelled before the call, result {}", res_name(&o1.result)));
+            }
+            if !o1.reports.is_empty() {
+                orc.push(format!("pre-cancelled call made {} progress reports", o1.reports.len()));
+            }
+            if o2.result.is_err() {
+                orc.push(format!("retry after reset failed: {}", res_name(&o2.result)));
+            }
+            let written1 = o1.written;
+            if written1 != 0 {
+                orc.push(format!("pre-cancelled call wrote {written1} bytes"));
+            }
+            Some((
+                format!(
+                    "{} n={} written={written1} retry={} n2={}",
+                    res_name(&o1.result),
+                    o1.reports.len(),
+                    res_name(&o2.result),
+                    o2.reports.len()
+                ),
+                orc,
+            ))
+        }
+        Cancel::At(k) => {
+            let o = execute(&c, &data, false, Some(k), false).remove(0);
+            check_sequence("cancel", &c, &o, &mut orc);
+            check_cancel_at(&c, k, &o, &mut orc);
+            let res = if !c.opts.parallel || !c.mt || frs.iter().all(|f| f.len() <= 1) {
+                format!("{} n={}", res_name(&o.result), o.reports.len())
+            } else {
+                res_name(&o.result)
+            };
+            Some((res, orc))
+        }
+        Cancel::Sweep => {
+            let o = execute(&c, &data, false, None, false).remove(0);
+            check_sequence("run", &c, &o, &mut orc);
+            let n = o.reports.len();
+            let ks: Vec<usize> = if n <= 96 { (0..n).collect() } else { (0..96).map(|i| i * (n - 1) / 95).collect() };
+            let (mut nc, mut nok) = (0, 0);
+            for k in ks {
+                let ok = execute(&c, &data, false, Some(k), false).remove(0);
+                check_sequence(&format!("cancel at {k}"), &c, &ok, &mut orc);
+                check_cancel_at(&c, k, &ok, &mut orc);
+                match ok.result {
+                    Err(EncodingError::Cancelled) => nc += 1,
+                    Ok(()) => nok += 1,
+                    _ => {}
+                }
+                if orc.len() > 8 {
+                    break;
+                }
+            }
+            Some((format!("sweep {} n={n} cancelled={nc} ok={nok}", res_name(&o.result)), orc))
+        }
+    }
+}
+
+fn check_cancel_at(_c: &Case, k: usize, o: &Outcome, orc: &mut Vec<String>) {
+    if let Some(&p) = o.reports.get(k) {
+        if p < 1.0 && !matches!(o.result, Err(EncodingError::Cancelled)) {
+            orc.push(format!(
+                "cancelled at report {k} (value {p:e} < 1) but the call returned {}",
+                res_name(&o.result)
+            ));
+        }
+    }
 }
